@@ -12,7 +12,7 @@ import z3
 from typing import Dict, List, Optional
 
 from .source import SourceIndex, FuncInfo, ClassInfo, ModuleInfo
-from .values import (Unsupported, EnumVal, SEnum, SSet, GList, SStr, SObj, ExcVal, BuiltinExcClass, XList,
+from .values import (Unsupported, EnumVal, SEnum, SSet, GList, SStr, SObj, ExcVal, BuiltinExcClass, XList, Spread,
                      BUILTIN_EXCEPTIONS, BoundMethod, BuiltinMethod, SuperProxy, Closure, NativeFn,
                      str_concat, str_len, str_eq, str_map_chars, str_count, nonneg, to_z3_string)
 
@@ -210,6 +210,9 @@ class Interp:
         self.pipes = PipeTable(self)
         self.pointwise = 0
         self.merge_ifs = 0
+        self.merge_depth = 0         # > 0 inside a branch of a merged if
+        self.recording = None        # list of (XList, value) appends recorded during the per-element evaluation of an effect loop
+        self.body_lists = set()      # ids of the Python lists created inside the body being evaluated per element
         SObj._next[0] = 0
 
     def fresh(self, base, sort='int'):
@@ -406,9 +409,12 @@ class Interp:
         if isinstance(v, SSeq):
             return self.pipes.observable(v, 'ne')
         if isinstance(v, XList):
-            if v.items:
+            if any(not isinstance(x, Spread) for x in v.items):
                 return True
-            return self.pipes.observable(v.base, 'ne') if v.base is not None else False
+            acc = False
+            for kind, seg in v.segments():
+                acc = _or(acc, self.pipes.observable(seg, 'ne'))
+            return acc
         if getattr(v, '_pyvc_native', False):
             return True
         raise Unsupported(f'truthiness of {type(v).__name__}')
@@ -549,8 +555,8 @@ class Interp:
                 return
             raise Unsupported('in-place set operator between a concrete and a symbolic set')
         if isinstance(cur, XList) and isinstance(st.op, ast.Add):
-            self.note_write(cur, 'list +=')
-            cur.items.extend(self.iterate(rhs))
+            from . import builtins_sym
+            builtins_sym.call_method(self, cur, 'extend', [rhs], {})
             return
         self.assign(st.target, self.binop(st.op, cur, rhs), env)
 
@@ -596,17 +602,39 @@ class Interp:
         """if/else executed on both sides and merged with ite (used inside per-element loop bodies: no forks)"""
         base = dict(env.vars)
         nw = len(self.writes)
+        rec = self.recording
         try:
+            # appends recorded inside the two branches (effect loops): allowed when both branches append to the same lists, one
+            # value each -- the recorded value is then the merged one
+            if rec is not None:
+                self.recording = []
             self.exec_block(st.body, env)
-            then_vars = dict(env.vars)
+            then_vars, then_rec = dict(env.vars), self.recording
             env.vars.clear()
             env.vars.update(base)
+            if rec is not None:
+                self.recording = []
             self.exec_block(st.orelse, env)
-            else_vars = dict(env.vars)
+            else_vars, else_rec = dict(env.vars), self.recording
         except (PyRaise, _Return, _Break, _Continue):
             raise Unsupported('raise / return / break inside a branch of a per-element (merged) evaluation')
-        if len(self.writes) != nw:
+        finally:
+            self.recording = rec
+        if any(not w[3] for w in self.writes[nw:]):      # (writes that initialise objects created in the branch are not effects)
             raise Unsupported('heap write inside a merged branch')
+        if rec is not None and (then_rec or else_rec):
+            if len(then_rec) == len(else_rec) and all(a[0] is b[0] and a[2] is True and b[2] is True for a, b in zip(then_rec, else_rec)):
+                # both branches append one value each to the same lists: one append of the merged value
+                for (xl, a, _), (_, b, _) in zip(then_rec, else_rec):
+                    rec.append((xl, a if a is b else self.ite_value(cond, a, b), True))
+            elif not else_rec or not then_rec:
+                # one branch appends: a guarded append (the loop rule turns the guard into a filter)
+                for (xl, a, g) in then_rec:
+                    rec.append((xl, a, _and(g, cond)))
+                for (xl, b, g) in else_rec:
+                    rec.append((xl, b, _and(g, _not(cond))))
+            else:
+                raise Unsupported('the branches of a per-element evaluation append differently')
         merged = {}
         for k in set(then_vars) | set(else_vars):
             if k not in then_vars or k not in else_vars:
@@ -627,6 +655,14 @@ class Interp:
             return simp(z3.If(c, zint(a), zint(b)))
         if isinstance(a, (EnumVal, SEnum)) and isinstance(b, (EnumVal, SEnum)) and a.cls.qualname == b.cls.qualname:
             return SEnum(a.cls, simp(z3.If(c, zint(self.enum_code(a)), zint(self.enum_code(b)))))
+        if isinstance(a, SObj) and isinstance(b, SObj) and a.cls is b.cls and a.fresh and b.fresh and set(a.fields) == set(b.fields):
+            # two objects created in the two branches: one object whose fields are merged
+            o = SObj(a.cls, True)
+            for k in a.fields:
+                o.fields[k] = a.fields[k] if a.fields[k] is b.fields[k] else self.ite_value(c, a.fields[k], b.fields[k])
+            return o
+        if a is None and b is None:
+            return None
         raise Unsupported(f'cannot merge {type(a).__name__} and {type(b).__name__}')
 
     def st_Raise(self, st, env):
@@ -722,6 +758,22 @@ class Interp:
         if isinstance(it, SStr) and not it.is_concrete():
             return self.for_over_runs(st, it, env)
         from .seq import SSeq
+        if isinstance(it, XList) and it.has_spread():
+            if st.orelse:
+                raise Unsupported('for/else over a symbolic list')
+            for kind, seg in it.segments():
+                if kind == 'pipe':
+                    self.loops.for_over_seq(self, st, seg, env)
+                else:
+                    for x in seg:
+                        self.assign(st.target, x, env)
+                        try:
+                            self.exec_block(st.body, env)
+                        except _Break:
+                            raise Unsupported('break inside a loop over a spliced symbolic list')
+                        except _Continue:
+                            continue
+            return
         if isinstance(it, XList):
             if it.base is not None:
                 if st.orelse:
@@ -1090,8 +1142,16 @@ class Interp:
                     return a + b
                 return simp(zint(a) + zint(b))
             from .seq import SSeq
-            if isinstance(a, SSeq) or isinstance(b, SSeq):
-                return self.loops.seq_concat(self, a, b)
+            if isinstance(a, (XList, list, SSeq)) and isinstance(b, (XList, list, SSeq)) and (isinstance(a, XList) or isinstance(b, XList)
+                                                                                             or isinstance(a, SSeq) or isinstance(b, SSeq)):
+                # list concatenation with a symbolic part: a new list object made of the segments of both
+                def segs(v):
+                    if isinstance(v, XList):
+                        return ([Spread(v.base)] if v.base is not None else []) + list(v.items)
+                    if isinstance(v, SSeq):
+                        return [Spread(v)]
+                    return list(v)
+                return XList(None, segs(a) + segs(b), False)
         elif isinstance(op, ast.Sub):
             if _intlike(a) and _intlike(b):
                 if isinstance(a, int) and isinstance(b, int):
@@ -1713,7 +1773,32 @@ class Interp:
             return list(it.items)
         return [(True, x) for x in self.iterate(it)]
 
+    def comp_over_segments(self, node, xl, env):
+        """[elt for x in <list with symbolic parts> if conds]: part by part, a list with the same structure"""
+        g = node.generators[0]
+        out = []
+        for kind, seg in xl.segments():
+            cenv = Env(env.module, env.cls, env.func, env)
+            if kind == 'pipe':
+                out.append(Spread(self.loops.comprehension(self, node, seg, cenv, 'list')))
+                continue
+            for x in seg:
+                self.assign(g.target, x, cenv)
+                keep = True
+                for cond in g.ifs:
+                    t = self.truth(self.ev(cond, cenv))
+                    if not isinstance(t, bool):
+                        raise Unsupported('symbolic condition on a plain item of a list with symbolic parts')
+                    keep = keep and t
+                if keep:
+                    out.append(self.ev(node.elt, cenv))
+        return XList(None, out, False)
+
     def ex_ListComp(self, node, env):
+        if len(node.generators) == 1 and not isinstance(node, ast.DictComp):
+            it0 = self.ev(node.generators[0].iter, Env(env.module, env.cls, env.func, env))
+            if isinstance(it0, XList) and (it0.has_spread() or (it0.base is not None and it0.items)):
+                return self.comp_over_segments(node, it0, env)
         items = self.comp_items(node, env)
         if isinstance(items, tuple):
             return self.loops.comprehension(self, node, items[1], items[2], 'list')
@@ -1988,6 +2073,35 @@ class Interp:
         finally:
             self.depth -= 1
             self.cur_func, self.cur_line = saved
+
+    def find_loop(self, f, text):
+        for n in ast.walk(f.node):
+            if isinstance(n, (ast.For, ast.While)) and ast.unparse(n).split('\n')[0].rstrip(':').strip() == text:
+                return n
+        raise Unsupported(f'loop {text!r} not found in {f.qualname}')
+
+    def run_step(self, f, text, values):
+        """One iteration of the loop `text` of function f from the state `values` (parameters and locals by name; for a `for` loop
+        the loop variables are among them): returns (flow, value, env) with flow in next / break / return."""
+        loop = self.find_loop(f, text)
+        env = Env(f.module, f.cls, f)
+        env.vars.update(values)
+        self.depth += 1
+        saved = (self.cur_func, self.cur_line)
+        self.cur_func = f.qualname
+        flow, value = 'next', None
+        try:
+            self.exec_block(loop.body, env)
+        except _Continue:
+            pass
+        except _Break:
+            flow = 'break'
+        except _Return as r:
+            flow, value = 'return', r.value
+        finally:
+            self.depth -= 1
+            self.cur_func, self.cur_line = saved
+        return flow, value, env
 
     def builtin_open(self, args, kwargs):
         self.events.append(('ext', 'open', tuple(args), dict(kwargs)))
